@@ -317,11 +317,16 @@ class EnvHandle(object):
 
     def _make_env(self):
         spec = self.spec
+        kw = {}
+        if spec.get("reward") != "default":
+            kw["reward"] = build_reward(spec.get("reward"))
+        # ("default": the argument is left out, so the environment uses the constructor's own default object -
+        #  one object shared by every environment of the process that is built that way)
         self.env = TradingEnv(
-            action_space=self.space, state=self.state, reward=build_reward(spec.get("reward")),
+            action_space=self.space, state=self.state,
             transmitter=self.transmitter, initial_cash=spec.get("cash", 100.0), broker_fees=self.fees,
             latency=self.latency_us / 1e6, steps_delay=spec.get("delay", 0),
-            episode_length=spec.get("episode_length"), sampling_span=spec.get("sampling_span"),
+            episode_length=spec.get("episode_length"), sampling_span=spec.get("sampling_span"), **kw
         )
         self.sink.envs[self.tag] = self.env
 
@@ -727,6 +732,20 @@ class EpiSim(object):
                 AbstractContract.now = core.parse_t(op["t"])
                 self.fault("foreign_clock_write")
                 self.sink.records.append({"seq": self.sink.next_seq(), "kind": "clock", "t": core.parse_t(op["t"])})
+            elif name == "bad_env":
+                # error path: somebody tries to build another environment on this transmitter with a latency that is
+                # not smaller than the smallest gap between timesteps; the constructor must refuse it and leave the
+                # transmitter (and the environment in use) as they were
+                h = self.handles[op.get("env", 0)]
+                grid = sorted(set(core.parse_t(g) for g in h.spec["grid"]))
+                mingap = min(((b - a).total_seconds() for a, b in zip(grid, grid[1:])), default=1.0)
+                rec = {"seq": self.sink.next_seq(), "kind": "bad_env", "env": h.tag, "exc": None}
+                try:
+                    TradingEnv(action_space=h.space, transmitter=h.transmitter, latency=mingap * op.get("factor", 1.0))
+                except Exception as e:
+                    rec["exc"] = type(e).__name__
+                self.sink.records.append(rec)
+                self.fault("environment_construction_refused")
             elif name == "new_env":
                 h = self.handles[op.get("env", 0)]
                 h.new_env(op)
